@@ -755,19 +755,43 @@ class TypeCheckFull(Contract):
 
 
 def run_call_order(prop):
-    """depccg/parsing.py::run: the shape check is the first statement, on the arguments as given, and everything that parses comes after it"""
+    """depccg/parsing.py::run: the shape check happens before anything that parses.  Three-valued, decided on the ast in statement order:
+      failed      a parsing action (depccg._parsing.run, a worker pool, _chunks, apply_async) is reached textually before any call of _type_check, or _type_check is
+                  never called;
+      discharged  the first call of run is _type_check on run's own first three parameters (the arguments as given);
+      unknown     anything else (the check may have moved into a helper: not recognised is not a violation)."""
     import ast
     from vc.pyvc import parse_source
     tree = parse_source(REL)
     fn = [n for n in tree.body if isinstance(n, ast.FunctionDef) and n.name == 'run']
-    ok, why = False, 'run not found'
-    if fn:
-        body = [s for s in fn[0].body if not (isinstance(s, ast.Expr) and isinstance(s.value, ast.Constant))]
-        first = body[0] if body else None
-        why = 'the first statement of run is not `doc, score_results = _type_check(doc, score_results, categories)`'
-        if (isinstance(first, ast.Assign) and isinstance(first.value, ast.Call) and ast.unparse(first.value.func) == '_type_check'
-                and [ast.unparse(a) for a in first.value.args] == ['doc', 'score_results', 'categories'] and not first.value.keywords
-                and ast.unparse(first.targets[0]) in ('(doc, score_results)', 'doc, score_results')):
-            ok, why = True, 'run checks the shapes of its arguments before anything else (no parsing call, no worker pool before _type_check returns)'
-    return [dict(name=f'{prop}/{REL}::run/call-order[_type_check first]', kind='call-site', verdict='discharged' if ok else 'failed', backend='ast', ms=0, inputs=None, detail=why,
-                 witness=dict(function=f'{REL}::run'))]
+    name = f'{prop}/{REL}::run/call-order[_type_check first]'
+
+    def rec(verdict, why):
+        return [dict(name=name, kind='call-site', verdict=verdict, backend='ast', ms=0, inputs=None, detail=why, witness=dict(function=f'{REL}::run'))]
+    if not fn:
+        return rec('unknown', 'run not found')
+    fn = fn[0]
+    params = [a.arg for a in fn.args.posonlyargs + fn.args.args][:3]
+    calls = []
+    for st in fn.body:
+        if isinstance(st, ast.FunctionDef):
+            continue
+        for n in ast.walk(st):
+            if isinstance(n, ast.Call):
+                calls.append((n.lineno, n.col_offset, ast.unparse(n.func), n))
+    calls.sort(key=lambda c: (c[0], c[1]))
+    PARSING = ('depccg._parsing.run', '_parsing.run', 'Pool', '_chunks', 'pool.apply_async', 'apply_async')
+    first_check = next((i for i, c in enumerate(calls) if c[2] == '_type_check'), None)
+    first_parse = next((i for i, c in enumerate(calls) if c[2] in PARSING or c[2].endswith('.apply_async')), None)
+    if first_check is None:
+        helpers = [c[2] for c in calls[:3]]
+        return rec('unknown' if first_parse is None or (calls and calls[0][2] not in PARSING) else 'failed',
+                   f'run does not call _type_check itself (first calls: {helpers}): not recognised' if first_parse is None or (calls and calls[0][2] not in PARSING)
+                   else 'run starts parsing without checking the shapes of its arguments')
+    if first_parse is not None and first_parse < first_check:
+        return rec('failed', f'run reaches {calls[first_parse][2]} (line {calls[first_parse][0]}) before _type_check (line {calls[first_check][0]})')
+    c = calls[first_check][3]
+    args_ok = not c.keywords and [ast.unparse(a) for a in c.args] == params
+    if first_check == 0 and args_ok:
+        return rec('discharged', 'run checks the shapes of its arguments, as given, before anything else (no parsing call, no worker pool before _type_check returns)')
+    return rec('unknown', f'_type_check is called after {[x[2] for x in calls[:first_check]]} / with {[ast.unparse(a) for a in c.args]}: not recognised as `the arguments as given, first`')
